@@ -161,7 +161,7 @@ pub struct CallResult {
 
 /// One rewrite call, exactly the body of `Rewriter::rewrite` minus the JsValue conversions.
 pub fn call(config: &vh::Config, code: &str, file: &str, fs: &FsSpec, plan: &FaultPlan) -> CallResult {
-    let reader = SimFileReader::new(fs, plan);
+    let reader = if plan.reenter { SimFileReader::new(fs, plan).with_reenter(Box::new(move || nested_rewrite(fs))) } else { SimFileReader::new(fs, plan) };
     let r = catch_unwind(AssertUnwindSafe(|| {
         vh::rewrite_with_reader(config, code.to_string(), file, &reader)
     }));
@@ -175,6 +175,13 @@ pub fn call(config: &vh::Config, code: &str, file: &str, fs: &FsSpec, plan: &Fau
     CallResult {
         outcome,
         stats: reader.stats(),
+    }
+}
+
+/// the nested rewrite a re-entering reader performs (`FaultPlan::reenter`): another file, another instance
+pub fn nested_rewrite(fs: &FsSpec) {
+    if let Ok(ic) = make_config(&tracer_like_cfg(Some("inner"), true, true, "DEBUG", true), 7) {
+        let _ = call(&ic, "function inner(a, b) { return a + b.trim(); }\n//# sourceMappingURL=inner.js.map\n", "/abs/inner/x.js", fs, &FaultPlan::clean());
     }
 }
 
